@@ -14,7 +14,8 @@ TGenomeRow = TObj('Genome')
 TGenomeRow.field('key', TStr).field('description', TStr)
 TGenome = TObj('AnnotatedGenome')
 TGenome.field('taxon', TTaxon).field('genome', TGenomeRow).field('description', TStr).field('key', TStr) \
-	.field('organism', TOpt(TStr)).field('genome_id', TInt)
+	.field('organism', TOpt(TStr)).field('genome_id', TInt).field('ncbi_db', TOpt(TStr)).field('ncbi_id', TOpt(TInt)) \
+	.field('genbank_acc', TOpt(TStr)).field('refseq_acc', TOpt(TStr))
 
 Taxon = Obj('Taxon')
 OptTaxon = Obj('Taxon', nonnull=False)
